@@ -34,16 +34,16 @@ package parser
 //@     cond(keyIs(ns[k-1], valid, "match"), gmodel.MatchRule(noteArg(ns[k-1], 0)), ruleAfter(init, ns, valid, k-1)))
 //@ spec posText(fs *token.FileSet, pos token.Pos) string = fmt_v(box(positionOf(fs, pos)))
 //@
-//@ spec tight(o option.Options) bool =
+//@ spec tight(o option.Options) bool = disjoint(o.NameMapper, o.TemplatedNameMapper) &&
 //@     cap(o.SkipFields) == len(o.SkipFields) && cap(o.NameMapper) == len(o.NameMapper) &&
 //@     cap(o.TemplatedNameMapper) == len(o.TemplatedNameMapper) && cap(o.Converters) == len(o.Converters) &&
 //@     cap(o.Literals) == len(o.Literals)
 //@
 //@ func (*Parser).parseNotationInComments(p, notations, validOps, opts) (err)
-//@   requires wfParser(p) && wfNotes(notations) && option.skipInv(*opts) && tight(*opts)
+//@   requires wfParser(p) && wfNotes(notations) && option.optsInv(*opts) && tight(*opts)
 //@   effects log, stdout
 //@   assigns *opts
-//@   ensures {C09,C14} option.skipInv(*opts)
+//@   ensures {C09,C14} option.optsInv(*opts) && disjoint(opts.NameMapper, opts.TemplatedNameMapper)
 //@   ensures {C09} err == nil ==> opts.ExactCase == toggleAfter(old(opts.ExactCase), notations, validOps, len(notations), "case", "case:off")
 //@   ensures {C09} err == nil ==> opts.Getter == toggleAfter(old(opts.Getter), notations, validOps, len(notations), "getter", "getter:off")
 //@   ensures {C09} err == nil ==> opts.Stringer == toggleAfter(old(opts.Stringer), notations, validOps, len(notations), "stringer", "stringer:off")
@@ -66,6 +66,11 @@ package parser
 //@   ensures {C09} !has(validOps, "recv") ==> opts.Receiver == old(opts.Receiver)
 //@   ensures {C09} !has(validOps, "reverse") ==> opts.Reverse == old(opts.Reverse)
 //@   loop 1 invariant $k <= len(notations) && option.skipInv(*opts) && sameOld(opts.SkipFields)
+//@   loop 1 invariant option.convInv(*opts)
+//@   loop 1 invariant option.mapInv(opts.NameMapper)
+//@   loop 1 invariant disjoint(opts.NameMapper, opts.TemplatedNameMapper)
+//@   loop 1 invariant option.mapInv(opts.TemplatedNameMapper)
+//@   loop 1 invariant option.litInv(*opts)
 //@   loop 1 invariant sameOld(opts.NameMapper) && sameOld(opts.Converters) && sameOld(opts.Literals)
 //@   loop 1 invariant opts.ExactCase == toggleAfter(old(opts.ExactCase), notations, validOps, $k, "case", "case:off")
 //@   loop 1 invariant opts.Getter == toggleAfter(old(opts.Getter), notations, validOps, $k, "getter", "getter:off")
@@ -123,7 +128,7 @@ package parser
 
 // ---- methods and interfaces (C09, C17, C14, C08, C03) -----------------------------------------------------------------
 
-//@ spec wfP(p *Parser) bool = wfParser(p) && p.file != nil && option.skipInv(p.opts) && tight(p.opts)
+//@ spec wfP(p *Parser) bool = wfParser(p) && p.file != nil && option.optsInv(p.opts) && tight(p.opts)
 //@ spec sixEqual(a option.Options, b option.Options) bool =
 //@     a.Style == b.Style && a.Rule == b.Rule && a.ExactCase == b.ExactCase && a.Getter == b.Getter &&
 //@     a.Stringer == b.Stringer && a.Typecast == b.Typecast
@@ -131,10 +136,10 @@ package parser
 //@ spec wfDocs(p *Parser) bool = true
 //@
 //@ func (*Parser).parseMethod(p, method, opts) (m, err)
-//@   requires wfParser(p) && p.file != nil && method != nil && option.skipInv(opts) && tight(opts)
+//@   requires wfParser(p) && p.file != nil && method != nil && option.optsInv(opts) && tight(opts)
 //@   effects log, stdout
 //@   assigns all(ast.CommentGroup.List), all(ast.GenDecl.Doc), all(ast.FuncDecl.Doc), all(ast.TypeSpec.Doc), all(ast.Field.Doc)
-//@   ensures {C14,C09} err == nil ==> m != nil && fresh(m) && m.Method == method && option.skipInv(m.Opts)
+//@   ensures {C14,C09} err == nil ==> m != nil && fresh(m) && m.Method == method && option.optsInv(m.Opts)
 //@   ensures {C14,C08,C03} err == nil ==> is(objType(method), *types.Signature) && nPar(objSig(method)) > 0 && nRes(objSig(method)) > 0
 //@   ensures {C11} err == nil ==> m.DocComment == old(util.declDoc(p.file, method))
 //@   ensures {C09} err == nil && old(noNotes(util.declDoc(p.file, method))) ==> sixEqual(m.Opts, opts)
@@ -147,7 +152,7 @@ package parser
 //@   check {C09} err == nil ==> m.Opts.Rule == ruleAfter(old(opts.Rule), notations, option.ValidOpsMethod, len(notations))
 //@
 //@ spec wfIntf(e *intfEntry) bool =
-//@     e != nil && e.intf != nil && is(underlying(objType(e.intf)), *types.Interface) && option.skipInv(e.opts) && tight(e.opts)
+//@     e != nil && e.intf != nil && is(underlying(objType(e.intf)), *types.Interface) && option.optsInv(e.opts) && tight(e.opts)
 //@ spec ifaceMethods(e *intfEntry) *types.MethodSet = methodSetOf(underlying(objType(e.intf)))
 //@ spec nthMethod(e *intfEntry, i int) types.Object = selObj(msetAt(ifaceMethods(e), i))
 //@
@@ -156,10 +161,10 @@ package parser
 //@   effects log, stdout, stderr
 //@   assigns all(ast.CommentGroup.List), all(ast.GenDecl.Doc), all(ast.FuncDecl.Doc), all(ast.TypeSpec.Doc), all(ast.Field.Doc)
 //@   ensures {C14,C08,C17,C03} err == nil ==> len(r) == msetLen(ifaceMethods(intf))
-//@   ensures {C14,C08,C17} err == nil ==> forall(i, 0, len(r), r[i] != nil && r[i].Method == nthMethod(intf, i) && option.skipInv(r[i].Opts))
+//@   ensures {C14,C08,C17} err == nil ==> forall(i, 0, len(r), r[i] != nil && r[i].Method == nthMethod(intf, i) && option.optsInv(r[i].Opts))
 //@   ensures {C14} err != nil ==> r == nil
 //@   loop 1 invariant 0 <= i && i <= msetLen(mset) && len(methods) <= i && fresh(methods) && sameOld(methods)
-//@   loop 1 invariant len(methods) == i ==> forall(j, 0, i, methods[j] != nil && methods[j].Method == nthMethod(intf, j) && option.skipInv(methods[j].Opts))
+//@   loop 1 invariant len(methods) == i ==> forall(j, 0, i, methods[j] != nil && methods[j].Method == nthMethod(intf, j) && option.optsInv(methods[j].Opts))
 //@
 //@ global intfName: intfName == "Convergen"
 //@ spec inFile(p *Parser, o types.Object) bool = positionOf(p.fset, objPos(o)).Filename == p.srcPath
